@@ -23,6 +23,28 @@ def validity_battery(seed):
     return c13.setext_battery(seed) or c04.decode_battery(seed)
 
 
+def encapsulation(base, chk, fname):
+    """frame condition of the induction: the coordinates of a Point can only be written by the covered *Point methods,
+    so no exported operation may hand out a pointer or slice into a pre-existing object (receiver, argument, package
+    state) - except a pointer argument itself (methods return their receiver)"""
+    from . import sweep
+    r = sweep.run_api(base, chk, fname)
+    label = fname.replace("filippo.io/edwards25519", "ed")
+    bad = []
+    for p in r.paths:
+        if p.outcome[0] != "ret":
+            continue
+        for v in p.outcome[1]:
+            if isinstance(v, (X.Ptr, X.SliceV)) and v.obj in r.pre_objs:
+                if isinstance(v, X.Ptr) and any(isinstance(a, X.Ptr) and a == v for a in r.args):
+                    continue
+                m = r.ex.meta.get(v.obj)
+                bad.append((m.name if m else v.obj, getattr(v, "path", ())))
+    chk.used(base.prog, fname, "effects (" + r.desc + ")")
+    chk.fact("%s: no result is a pointer/slice into the storage of its receiver, an argument or package state (Point coordinates stay writable only through *Point methods)" % label,
+             not bad and any(p.outcome[0] == "ret" for p in r.paths), [fname], "effects", detail=str(bad[:4]))
+
+
 def run(chk):
     prog, base = setup(chk)
     chk.bounds = ["one inductive step per exported operation from arbitrary valid inputs (symbolic coordinates / abstract group elements) and arbitrary receivers (zero value, valid point, aliased); multi-scalar term counts n <= 2 (quick) / 4 (thorough)"]
@@ -90,6 +112,12 @@ def run(chk):
         g = p.heap[dst.obj][0]
         chk.fact("Point.Set copies its argument (a valid point stays valid)", isinstance(g, GM.G) and g.kind == "vec" and list(g.v.items()) == [("P", 1)], [prog.find("Point).Set")])
     items.append(("constructors", constructors))
+    from . import sweep
+    for fn in sweep.api_functions(prog):
+        short = prog.fn(fn)["short"]
+        if (fn.startswith("(*filippo.io/edwards25519.Point).") and short not in ("ScalarMult", "ScalarBaseMult", "VarTimeDoubleScalarBaseMult", "MultiScalarMult", "VarTimeMultiScalarMult")) \
+                or fn in (E + "NewIdentityPoint", E + "NewGeneratorPoint"):
+            items.append(("encapsulation " + short, lambda fn=fn: encapsulation(base, chk, fn)))
     run_kernels(chk, heavy + items)
     groups = [
         ("Point.SetExtendedCoordinates", lambda o: "SetExtendedCoordinates" in o.name, lambda: c13.setext_battery_with_witnesses(chk, base)),
